@@ -14,6 +14,7 @@ import Zrnt.Gossip.Driver
 import Zrnt.SSZ.Driver
 import Zrnt.Shuffle.Driver
 import Zrnt.Beacon.CommitteesDriver
+import Zrnt.Beacon.CommitteesChain
 import Zrnt.ForkChoice.Driver
 /-! Registry of `zmodel` modes. One line per component: `import` above, entry in `modes` below. -/
 namespace Zrnt.Driver
@@ -34,7 +35,8 @@ def modes : List Mode := [
   Zrnt.SSZ.Driver.sszMode,
   Zrnt.SSZ.Driver.sszStateMode,
   Zrnt.Shuffle.shuffleMode,
-  Zrnt.Beacon.Committees.committeesMode
+  Zrnt.Beacon.Committees.committeesMode,
+  Zrnt.Beacon.Committees.chainMode
 ]
 
 def run (args : List String) : IO UInt32 := do
